@@ -14,11 +14,11 @@ type JSONSkipped struct {
 }
 
 type JSONNested struct {
-	H  JSONHolder       `plenc:"1"`
-	P  *JSONHolder      `plenc:"2"`
-	L  []JSONHolder     `plenc:"3"`
-	M  map[string]any   `plenc:"4"`
-	Z  int              `plenc:"5"`
+	H JSONHolder     `plenc:"1"`
+	P *JSONHolder    `plenc:"2"`
+	L []JSONHolder   `plenc:"3"`
+	M map[string]any `plenc:"4"`
+	Z int            `plenc:"5"`
 }
 
 // jsonImage: the JSON data-model image of a JSON-model value, with ints and
